@@ -1,0 +1,16 @@
+//go:build verif
+
+package io
+
+// VerifWriteHook, when set (verification builds only), observes every write issued through
+// OffsetWriteSeeker and the few direct file mutations (kind "w" = write, "t" = truncate), and may
+// substitute the result of a write (override = true) to inject a short write or an error.
+var VerifWriteHook func(kind string, off int64, b []byte) (n int, err error, override bool)
+
+// VerifWrite reports a write/truncate to the hook.
+func VerifWrite(kind string, off int64, b []byte) (int, error, bool) {
+	if VerifWriteHook != nil {
+		return VerifWriteHook(kind, off, b)
+	}
+	return 0, nil, false
+}
